@@ -1,5 +1,6 @@
 import SqfModel
 import SqfModel.Generated.Registry
+import SqfModel.VM.Run
 import Driver.Proto
 import Std.Data.HashMap
 /-!
@@ -64,9 +65,32 @@ def renderTok (t : Token) : List Nat :=
 def verbLex (f : List (List Nat)) : List Nat :=
   joinWith [32] ((lexText (f.headD [])).map renderTok)
 
+def splitOn (sep : Nat) : List Nat → List (List Nat)
+  | [] => [[]]
+  | c :: cs =>
+    match splitOn sep cs with
+    | [] => [[]]
+    | hd :: tl => if c == sep then [] :: hd :: tl else (c :: hd) :: tl
+
+def natOfBytes (bs : List Nat) : Nat := natOfDigits bs
+
+def verbRun (e : Env) (f : List (List Nat)) (trace : Bool) : List Nat :=
+  let text := f.headD []
+  let globals := match f[1]? with
+    | some g => if g.isEmpty then [] else splitOn 44 g
+    | none => []
+  let maxSteps := match f[2]? with
+    | some s => if s.isEmpty then 100000 else natOfBytes s
+    | none => 100000
+  match assemble e.real text with
+  | none => str "parse-error"
+  | some prog => VM.observe prog globals maxSteps trace
+
 def handle (e : Env) (verb : String) (f : List (List Nat)) : List Nat :=
   if verb == "asm" then verbAsm e f
   else if verb == "lex" then verbLex f
+  else if verb == "run" then verbRun e f false
+  else if verb == "trace" then verbRun e f true
   else str "bad-verb"
 
 partial def loop (e : Env) (h : IO.FS.Stream) (out : IO.FS.Stream) : IO Unit := do
